@@ -1,6 +1,7 @@
 import RainModel.Lemmas.LoopWeak
 import RainModel.Lemmas.LoopPeers
 import RainModel.Lemmas.LoopHaves
+import RainModel.Lemmas.LoopHavesStep
 /-!
 C01 — download integrity, loop level (M-LOOP).  For every state, every event with arbitrary parameters,
 and every (admissible) choice of the implementation's picker:
@@ -101,6 +102,43 @@ theorem reported_only_verified :
           (if p.ext then ["exths"] else [])) :=
   ⟨writerRun_haves, handleVerificationDone_haves, firstMessages_bitfield⟩
 
+/-- **reported_only_verified_step.** Whole-step form: in any state with a well-formed configuration and disk
+model (`Sound0` = `CfgWF ∧ BadWF`, an invariant of every op), for **every** op with any parameters (an
+external change of the files included), with or without a parked piece message: every `have:i` among the
+messages the loop sends during the step names a piece whose non-padding bytes on disk are the true content
+at the end of the step.  Proof: no handler sends a `have` (`handle_noHave`: `unchoke`, `reject:…`, `piece:…`,
+`extmeta:…`, `bitfield:…`, `haveall`, `havenone`, `exths`, `interested`, `notinterested` are not `have:i`
+for any `i`), the two workers that do (`writerRun`, `handleVerificationDone`) name verified pieces, and
+the disk never gets worse inside a step.  The statement is about the disk, not about the bit: the bit of
+a piece announced in a step can be gone at the end of the same step (example below: the completion stops
+the torrent and a pending verify drops the bitfield). -/
+theorem reported_only_verified_step (s : St) (p : Parked) (kn : Nat → Bool) (op : Op) (h : Sound0 s) :
+    ∀ o ∈ (step s p kn op).1.outs, ∀ i, o.msg = haveMsg i → (step s p kn op).1.st.diskOKi i = true :=
+  step_havesOK s p kn op h
+
+/-- … and while the bitfield is sound (every non-mutate step from a `Sound` state, `bits_sound`) the
+announced piece and the bitfield agree with the disk together: the piece is verified on disk, and so is
+every piece whose bit is set. -/
+theorem reported_only_verified_step_sound (s : St) (p : Parked) (kn : Nat → Bool) (op : Op)
+    (hop : op.isMutate = false) (h : Sound s) :
+    (∀ o ∈ (step s p kn op).1.outs, ∀ i, o.msg = haveMsg i → (step s p kn op).1.st.diskOKi i = true) ∧
+    BitsSound (step s p kn op).1.st :=
+  ⟨step_havesOK s p kn op h.zero, (bits_sound s p kn op hop h).1⟩
+
+/-- **reported_only_verified_run.** Along every history from a freshly added torrent — any ops (deletions,
+corruptions and restorations of files included), any choices of the implementation adopted by
+`reconcile`/`reconcileIdl`, admissible or not — every `have:i` sent in the next step names a piece that is
+verified on disk when the step ends, and still is after the implementation's choices are adopted. -/
+theorem reported_only_verified_run (s0 : St) (h0 : InitLike s0) (evs : List Ev) (e : Ev) :
+    ∀ o ∈ (step (drun (s0, none) evs).1 (drun (s0, none) evs).2 e.known e.op).1.outs, ∀ i, o.msg = haveMsg i →
+      (step (drun (s0, none) evs).1 (drun (s0, none) evs).2 e.known e.op).1.st.diskOKi i = true ∧
+      (dstep (drun (s0, none) evs) e).1.diskOKi i = true := by
+  intro o ho i hi
+  have h := step_havesOK _ _ e.known e.op (drun_sound0 evs (s0, none) h0.sound.zero) o ho i hi
+  refine ⟨h, ?_⟩
+  unfold dstep
+  exact diskOKi_mono ((reconcile_adv _ _).trans (reconcileIdl_adv _ _)).bad i h
+
 /-! Non-vacuity: a one-piece torrent, an honest peer, the piece is written and the bit is set. -/
 section Example
 private def c1 : Cfg :=
@@ -116,6 +154,59 @@ private def evs1 : List Ev := [
 
 example : (drun (s1, none) evs1).1.bf = some [true] ∧ (drun (s1, none) evs1).1.diskOK = [true] ∧
     (drun (s1, none) evs1).1.status = .seeding := by decide
+
+/-- `s1` is `InitLike`-sound enough for the step theorems: `CfgWF` and `BadWF`. -/
+private theorem s1_sound0 : Sound0 s1 := by
+  refine ⟨?_, badWF_dataSects s1 rfl⟩
+  intro i hi sc hsc
+  match i with
+  | 0 => simp [c1, s1] at hi
+  | i + 1 =>
+    have : c1.sections (i + 1) = [] := by
+      simp [Cfg.sections, Cfg.n, c1, npAll]
+    rw [show s1.cfg = c1 from rfl, this] at hsc
+    cases hsc
+
+/-! `reported_only_verified_step` is not vacuous: with a second peer that lacks the piece, the step in
+which the write completes sends it `have:0`, and piece 0 is then verified on disk. -/
+private def evs2 : List Ev := [
+  ⟨.start, kn [], [], []⟩,
+  ⟨.peer 1 "10.0.0.2" true true false, kn [], [], []⟩,
+  ⟨.peer 2 "10.0.0.3" true true false, kn [1], [], []⟩,
+  ⟨.msg 1 .haveAll, kn [1, 2], [], []⟩,
+  ⟨.msg 1 .unchoke, kn [1, 2], [⟨1, 0, false, false, false⟩], []⟩]
+
+example : (step (drun (s1, none) evs2).1 none (kn [1, 2]) (.msg 1 (.piece 0 0 16384 true))).1.outs =
+      [⟨1, "notinterested"⟩, ⟨2, haveMsg 0⟩] ∧
+    (step (drun (s1, none) evs2).1 none (kn [1, 2]) (.msg 1 (.piece 0 0 16384 true))).1.st.diskOK = [true] ∧
+    (step (drun (s1, none) evs2).1 none (kn [1, 2]) (.msg 1 (.piece 0 0 16384 true))).1.st.bf = some [true] := by
+  decide
+
+example : ∀ o ∈ (step (drun (s1, none) evs2).1 none (kn [1, 2]) (.msg 1 (.piece 0 0 16384 true))).1.outs,
+    ∀ i, o.msg = haveMsg i →
+      (step (drun (s1, none) evs2).1 none (kn [1, 2]) (.msg 1 (.piece 0 0 16384 true))).1.st.diskOKi i = true :=
+  reported_only_verified_step _ _ _ _ (drun_sound0 evs2 (s1, none) s1_sound0)
+
+/-! Why the step form speaks of the disk and not of the bit: stop-after-download, a verify issued while
+nothing is on disk (it starts the download and stays pending, `verify_without_files_starts_download`),
+the allocator gate held.  The step in which the write completes announces `have:0`, completes, stops,
+and the pending verify restarts the torrent without its bitfield — all inside the same op.  The piece is
+verified on disk; there is no bitfield at the end of the step. -/
+private def s1sa : St := { s1 with cfg := { c1 with stopAfter := true } }
+private def evs3 : List Ev := [
+  ⟨.verify, kn [], [], []⟩,
+  ⟨.peer 1 "10.0.0.2" true true false, kn [], [], []⟩,
+  ⟨.peer 2 "10.0.0.3" true true false, kn [1], [], []⟩,
+  ⟨.msg 1 .haveAll, kn [1, 2], [], []⟩,
+  ⟨.msg 1 .unchoke, kn [1, 2], [⟨1, 0, false, false, false⟩], []⟩,
+  ⟨.gate .open true, kn [1, 2], [⟨1, 0, false, false, false⟩], []⟩]
+
+example : (step (drun (s1sa, none) evs3).1 none (kn [1, 2]) (.msg 1 (.piece 0 0 16384 true))).1.outs =
+      [⟨1, "notinterested"⟩, ⟨2, haveMsg 0⟩] ∧
+    (step (drun (s1sa, none) evs3).1 none (kn [1, 2]) (.msg 1 (.piece 0 0 16384 true))).1.st.diskOK = [true] ∧
+    (step (drun (s1sa, none) evs3).1 none (kn [1, 2]) (.msg 1 (.piece 0 0 16384 true))).1.st.bf = none ∧
+    (step (drun (s1sa, none) evs3).1 none (kn [1, 2]) (.msg 1 (.piece 0 0 16384 true))).1.st.status = .allocating := by
+  decide
 end Example
 
 end Rain.Props.C01Loop
